@@ -134,7 +134,7 @@ def conn_classes(ev):
     return cl
 
 
-def signature(prop, variant, ev, diag):
+def signature(prop, variant, ev, diag, before=()):
     items = []
     skip = False
     for x in diag:
@@ -146,6 +146,8 @@ def signature(prop, variant, ev, diag):
             continue
         items.append(str(x))
     sig = ":".join(items)
+    if "later_instant" in sig and ev.get("e") != "Cancel" and any(e.get("e") == "Cancel" and e.get("nsched") == 1 for e in before):
+        sig += ":after_pullback"    # an earlier event of this execution was pulled back by try_event_cancelation()
     if ev.get("e") == "ConnReq" and "invalid_parameters_connected" in sig:
         sig = "connreq:invalid[" + "+".join(conn_classes(ev)) + "]:connected"
     return sig
@@ -208,7 +210,7 @@ class Runner:
                 first, evs = execs[idx]
                 ev = evs[ln - first]
                 diag = diags.get(ln, [ev["e"], "unexplained"])
-                sig = signature(c.prop, variant, ev, diag)
+                sig = signature(c.prop, variant, ev, diag, evs[:ln - first])
                 brief = {k: ev[k] for k in ev if k in ("e", "dt", "now", "flags", "rx", "nsched", "nadv", "ch", "s", "en", "ci", "cb", "phy",
                                                        "ws", "wo", "int", "lat", "to", "map", "hop", "scac", "pend0", "latcfg", "disok", "ivals")}
                 if c.finding(sig, "link_layer<%s>: %s rejected by LinkLayer.tla[%s]: %s; event %d of the execution: %s"
@@ -233,7 +235,7 @@ def model(c):
         c.note("LinkLayerMC.tla missing")
         return
     cfgname = "MC_%s_%s.cfg" % (c.prop, "quick" if c.quick else "thorough")
-    vlib.model_check(c, "LinkLayer", "LinkLayerMC.tla", cfgname, workers=4, timeout=1500)
+    vlib.model_check(c, "LinkLayer", "LinkLayerMC.tla", cfgname, workers=4 if c.quick else 8, timeout=1500)
 
 
 def finish(c, r):
@@ -334,6 +336,9 @@ def replay(c):
     r = Runner(c, exes)
     beh = [l.split() for l in case["script"][1:]]
     n = r.run(variant, [beh], "replay", nfiles=1)
+    # no design-level model run in replay mode: the states explored are those of the trace validation
+    c.states += c.events
+    c.transitions += c.events
     tp = os.path.join(c.build_dir, "t_replay_%s_0.ndjson" % variant)
     c.sample(vlib.read_ndjson(tp)[:case.get("event_index", 10) + 1][-4:])
     if n == 0 and not c.known_hits:
